@@ -22,6 +22,7 @@ def parseStep (j : Json) : Except String Step := do
   | "push" => pure .push
   | "pushBegin" => pure .pushBegin
   | "pushRejected" => pure .pushRejected
+  | "pushQueuedRaised" => pure .pushQueuedRaised
   | "pushStore" => pure (.pushStore (← getInt j "id"))
   | "flushTimeout" => pure .flushTimeout
   | "start" => pure (.start (← getInt j "id") ((← getOptInt j "w").getD 0).toNat)
